@@ -244,6 +244,7 @@ func (s scen) judge(e *sched.Exec) (string, string, *sched.Failure) {
 		path           string
 		termAt, killAt int64
 		nTerm, nKill   int
+		killStamp      sched.Stamp
 		exitAt         int64
 		exited         bool
 		exitStamp      sched.Stamp
@@ -271,6 +272,7 @@ func (s scen) judge(e *sched.Exec) (string, string, *sched.Failure) {
 				p.nKill++
 				if p.killAt < 0 {
 					p.killAt = k.TimeNs
+					p.killStamp = k.At
 				}
 			}
 		case "exit":
@@ -360,6 +362,19 @@ func (s scen) judge(e *sched.Exec) (string, string, *sched.Failure) {
 		}
 		if kind == "sub-not-polling" && s.rt == "never-started" {
 			kind = "unsub" // it never registered: the platform knows no subscription of it
+		}
+		if p != nil && p.nKill > 0 && strings.HasPrefix(kind, "sub-") {
+			// a registration that was not complete when the teardown looked at the extension does not count:
+			// the platform then rightly treats it as unsubscribed
+			registered := false
+			for _, c := range w.Calls {
+				if c.Pid == p.pid && c.Kind == "register" && c.Answered >= 0 && c.Status == 200 && sched.HB(c.AnsAt, p.killStamp) {
+					registered = true
+				}
+			}
+			if !registered {
+				kind = "unsub"
+			}
 		}
 		// SHUTDOWN events this extension process received
 		var evs []*stack.Call
